@@ -323,6 +323,9 @@ def c05(tier, seed):
                        "reproduces a 1-byte plaintext with probability 2^-8)"]
     _recover_family(out, "C05", ["Star_q_faults.cfg", "Star_a_faults.cfg", "Star_t_faults.cfg" if thorough else "Star_t3_faults.cfg"],
                     seed, 6 if thorough else 4, stride=1 if thorough else 2)
+    if thorough:
+        # inboxes of four shares: an altered or foreign share after three genuine ones of the threshold-3 group
+        _recover_family(out, "C05", ["Star_q_faults4.cfg", "Star_a_faults4.cfg"], seed + 3, 6, stride=3)
     for k in range(6 if thorough else 1):
         out.add_vh(run_vh(["tamper-sweep", "--seed", seed + k, "--positions", "all"], timeout=3000), only={"C05"})
     _expect_spec_violation(out, "Neg_Adss", "Neg_Adss.cfg", "authenticated recovery when the MAC does not cover the threshold")
@@ -444,8 +447,10 @@ def c02(tier, seed):
                    lambda k, tr: (["cert-record", "--out", tr, "--seed", seed + k, "--groups", 200, "--sweep",
                                    "--mint", [2, 20, 30, 36, 41, 52][k], "--maxt", [19, 29, 35, 40, 51, 64][k]]
                                   if k < (6 if thorough else 4) else
-                                  ["cert-record", "--out", tr, "--seed", seed + k, "--groups", 6, "--maxt", 128 if thorough else 64]),
-                   8 if thorough else 5, "polynomial certificate")
+                                  (["cert-record", "--out", tr, "--seed", seed + k, "--groups", 6, "--maxt", 128 if thorough else 64]
+                                   if k < (7 if thorough else 5) else
+                                   ["cert-record", "--out", tr, "--seed", seed + k, "--small", 120 if thorough else 50, "--maxt", 8])),
+                   9 if thorough else 6, "polynomial certificate")
     return out
 
 
